@@ -267,45 +267,65 @@ def mkcalendarU (cfg : Cfg) (rights : Rights) (user : String) (s : Store) (p : P
                       else ({ status := 201 }, some (.setColl p ⟨.cal, props, []⟩)))
       | _ => ({ status := 409 }, none)
 
+/-- PUT onto a collection path / below a plain collection: the whole collection is written -/
+def putWholeU (cfg : Cfg) (rights : Rights) (user : String) (p : Path) (body : Body) (target : Target)
+    (ifMatchRaw ifNoneMatchStar : Bool) (ifMatchColl : Option (List (String × Nat) × List (String × String))) :
+    Resp × Option Update :=
+  let perms := rights user p
+  -- the tag is predicted from the kind of body, before the body is validated
+  let tag : Tag := match body with | .cal _ => .cal | .cards _ => .book | .unparsable => .none
+  -- the letter follows the tag that is going to be written (repaired: fix F21)
+  if !has perms (if tag = .none then "W" else "w") then (forbiddenNA, none)
+  else if (!cfg.permitOverwrite && !has perms "O") || (cfg.permitOverwrite && has perms "o") then (forbiddenNA, none)
+  else
+    let cur : Option (List (String × Nat) × List (String × String)) :=
+      match target with | .coll _ c => some (collEtag c) | _ => none
+    -- If-Match on a collection compares with the collection's ETag
+    if ifMatchRaw && (cur.isNone || ifMatchColl ≠ cur) then ({ status := 412 }, none)
+    else if ifNoneMatchStar && cur.isSome then ({ status := 412 }, none)
+    else match asCollection body with
+      | none => ({ status := 400 }, none)
+      | some (_, items) =>
+        let c : Coll := ⟨tag, [], items⟩
+        ({ status := 201, cetag := some (collEtag c) }, some (.replaceTree p c))
+
+/-- PUT of a single item into the calendar / address book `pc` -/
+def putItemU (rights : Rights) (user : String) (p : Path) (body : Body) (pc : Coll) (target : Target)
+    (ifMatch : Option Nat) (ifMatchRaw ifNoneMatchStar : Bool) : Resp × Option Update :=
+  if !has (rights user p.dropLast) "w" then (forbiddenNA, none)
+  else
+    let cur : Option Item := match target with | .item _ _ _ it => some it | _ => none
+    if ifMatchRaw && (match cur, ifMatch with | some it, some e => it.cid != e | _, _ => true) then ({ status := 412 }, none)
+    else if ifNoneMatchStar && cur.isSome then ({ status := 412 }, none)
+    else match asItem pc.tag body with
+      | none => ({ status := 400 }, none)
+      | some it =>
+        let conflict := match cur with
+          | some old => old.uid != it.uid
+          | none => pc.hasUid it.uid
+        if conflict then ({ status := 409 }, none)
+        else ({ status := 201, etag := some it.cid }, some (.setColl p.dropLast (pc.put (p.getLast?.getD "") it)))
+
+def Body.isUnparsable : Body → Bool
+  | .unparsable => true
+  | _ => false
+
+/-- `write_whole_collection`: the target is a collection, or the parent is a plain collection -/
+def isWhole (target : Target) (pc : Coll) : Bool :=
+  (match target with | .coll .. => true | _ => false) || pc.tag = .none
+
+def putDispatch (cfg : Cfg) (rights : Rights) (user : String) (p : Path) (body : Body) (pc : Coll) (target : Target)
+    (ifMatch : Option Nat) (ifMatchRaw ifNoneMatchStar : Bool)
+    (ifMatchColl : Option (List (String × Nat) × List (String × String))) : Resp × Option Update :=
+  if isWhole target pc then putWholeU cfg rights user p body target ifMatchRaw ifNoneMatchStar ifMatchColl
+  else putItemU rights user p body pc target ifMatch ifMatchRaw ifNoneMatchStar
+
 def putU (cfg : Cfg) (rights : Rights) (user : String) (s : Store) (p : Path) (body : Body) (ifMatch : Option Nat) (ifMatchRaw : Bool) (ifNoneMatchStar : Bool) (ifMatchColl : Option (List (String × Nat) × List (String × String))) : Resp × Option Update :=
-    if !check rights user p 'w' .nothing then (forbiddenNA, none)
-    else if (match body with | .unparsable => true | _ => false) then ({ status := 400 }, none)
-    else match parentOk s p with
-      | none => ({ status := 409 }, none)
-      | some pc =>
-        let target := resolve s p
-        let whole := (match target with | .coll .. => true | _ => false) || pc.tag = .none
-        let perms := rights user p
-        if whole then
-          -- the tag is predicted from the kind of body, before the body is validated
-          let tag : Tag := match body with | .cal _ => .cal | .cards _ => .book | .unparsable => .none
-          if !has perms (if tag = .none then "W" else "w") then (forbiddenNA, none)
-          else if (!cfg.permitOverwrite && !has perms "O") || (cfg.permitOverwrite && has perms "o") then (forbiddenNA, none)
-          else
-            let cur : Option (List (String × Nat) × List (String × String)) :=
-              match target with | .coll _ c => some (collEtag c) | _ => none
-            -- If-Match on a collection compares with the collection's ETag
-            if ifMatchRaw && (cur.isNone || ifMatchColl ≠ cur) then ({ status := 412 }, none)
-            else if ifNoneMatchStar && cur.isSome then ({ status := 412 }, none)
-            else match asCollection body with
-              | none => ({ status := 400 }, none)
-              | some (_, items) =>
-                let c : Coll := ⟨tag, [], items⟩
-                ({ status := 201, cetag := some (collEtag c) }, some (.replaceTree p c))
-        else
-          if !has (rights user p.dropLast) "w" then (forbiddenNA, none)
-          else
-            let cur : Option Item := match target with | .item _ _ _ it => some it | _ => none
-            if ifMatchRaw && (match cur, ifMatch with | some it, some e => it.cid != e | _, _ => true) then ({ status := 412 }, none)
-            else if ifNoneMatchStar && cur.isSome then ({ status := 412 }, none)
-            else match asItem pc.tag body with
-              | none => ({ status := 400 }, none)
-              | some it =>
-                let conflict := match cur with
-                  | some old => old.uid != it.uid
-                  | none => pc.hasUid it.uid
-                if conflict then ({ status := 409 }, none)
-                else ({ status := 201, etag := some it.cid }, some (.setColl p.dropLast (pc.put (p.getLast?.getD "") it)))
+  if !check rights user p 'w' .nothing then (forbiddenNA, none)
+  else if body.isUnparsable then ({ status := 400 }, none)
+  else match parentOk s p with
+    | none => ({ status := 409 }, none)
+    | some pc => putDispatch cfg rights user p body pc (resolve s p) ifMatch ifMatchRaw ifNoneMatchStar ifMatchColl
 
 def deleteU (cfg : Cfg) (rights : Rights) (user : String) (s : Store) (p : Path) (ifMatch : Option (Option Nat)) : Resp × Option Update :=
     if !check rights user p 'w' .nothing then (forbiddenNA, none)
